@@ -56,7 +56,10 @@ RecOK(r) ==
   (r.premise /\ r.fault # "readerr") =>
     /\ ~r.failed
     /\ r.omitted = (r.skip /\ r.has_parent /\ r.parent_tree = r.full_tree)
-    /\ (~r.damaged => r.omitted = r.model_omitted)
+    \* the model works on the abstract tree (no directory time stamps): when restic omits the snapshot the model
+    \* must agree that nothing changed; the converse is decided exactly by the clause above on the real tree ids
+    \* (a deleted entry changes its directory's mtime, so an abstractly equal tree may still differ from the parent's)
+    /\ ((~r.damaged /\ r.omitted) => r.model_omitted)
     /\ ~r.omitted => /\ r.inc_tree = r.full_tree
                      /\ r.loadable
                      /\ SetOf(r.inc_abs) = SetOf(r.model_tree)
